@@ -500,6 +500,21 @@ def check_diff(prog, rep):
                 r = sm.ret
                 if r is not None and variant_of(r) is not None and variant_of(r)[0].endswith("Option") and any(fct[0] == "variant" and fct[1][0] == "call" and fct[1][1].endswith("get_pixel") for fct in sm.facts):
                     decisions.append((sm.facts, pt_, r))
+    # all cells are compared: when diff walks points itself, they are the points of the whole display
+    # (`display.bounding_box().points()` / the display-area constant), not of a rectangle it derives from the drawings
+    for facts_, point, colour in decisions:
+        pt = strip_refs(point)
+        if pt[0] == "payload" and pt[1][0] == "call" and pt[1][1].split("::")[-1] == "next" and pt[1][3]:
+            src = strip_refs(pt[1][3][0])
+            while src[0] == "call" and src[1].split("::")[-1] in ("into_iter", "by_ref", "iter") and src[3]:
+                src = strip_refs(src[3][0])
+            if src[0] == "call" and src[1].split("::")[-1] == "points" and len(src[3]) == 1:
+                area = strip_refs(src[3][0])
+                whole = (area[0] == "call" and area[1].split("::")[-1] == "bounding_box") or (area[0] == "const" and "DISPLAY_AREA" in str(area[1])) \
+                    or (area[0] == "call" and area[1].split("::")[-1] == "new" and "Rectangle" in area[1] and any(n_[0] == "const" and "SIZE" in str(n_[1]) for n_ in walk(area)) and not any(n_[0] == "call" and "affected_area" in n_[1] for n_ in walk(area)))
+                if not whole:
+                    probs.append("diff walks the points of %s instead of the whole display: cells outside it are never compared" % show(area, maxd=3)[:120])
+                    break
     receivers = []
     for facts_, point, colour in decisions:
         if True:
